@@ -11,6 +11,7 @@ DECIDED = ("R1 the accessor computes SOLUTIONS[((occ & mask) *wrapping factor >>
            "R3 for every square and every subset b of its mask, SOLUTIONS[idx(b)] equals ray casting; "
            "R4 mask = inner squares of the square's rays, hence raycast(sq, occ) = raycast(sq, occ & mask) for all occ. "
            "R1-R4 together give the statement for all 64 x 2^64 inputs.")
+DECIDED = DECIDED + " R1 also: every arm of rook_moves / bishop_moves (including the arm the analysed configuration folds away under `cfg!(debug_assertions)`) reads only that slider's own MAGIC/SOLUTIONS tables."
 NOT_DECIDED = "nothing of the statement is left undecided; trusted: the 30-line ray caster in analysis/chessref.py and the compiler's evaluation of the statics"
 EXPLANATION = ("The table bytes come from the compiler's evaluation of the `static` items (what ends up in .rodata); the accessor formula "
                "is read off the MIR of rook_moves/bishop_moves as a normalised dataflow term. The product (occ & mask) * factor is an arbitrary u64, "
